@@ -22,6 +22,10 @@ import (
 var (
 	verifDir = envOr("VERIF_DIR", "/verif")
 	repoDir  = envOr("VERIF_REPO", "/repo")
+	// outDir receives evidence/, replay/ and .work/; it differs from verifDir only when a
+	// mutated scratch copy of the repository is being checked (tools/seedrun.sh), so that
+	// the committed evidence always describes /repo itself.
+	outDir = envOr("VERIF_OUT", verifDir)
 )
 
 func envOr(k, d string) string {
@@ -178,7 +182,7 @@ func cmdRun(args []string) int {
 		}
 	}
 
-	workDir := filepath.Join(verifDir, ".work", fmt.Sprintf("%s-%d", id, os.Getpid()))
+	workDir := filepath.Join(outDir, ".work", fmt.Sprintf("%s-%d", id, os.Getpid()))
 	os.MkdirAll(workDir, 0o755)
 	defer os.RemoveAll(workDir)
 
@@ -282,7 +286,7 @@ func cmdRun(args []string) int {
 
 	// ---- native validation, violation confirmation
 	ev := newEvidence(id, *tier)
-	replayDir := filepath.Join(verifDir, "replay", id)
+	replayDir := filepath.Join(outDir, "replay", id)
 	knownSeen := map[string]bool{}
 	mismatches := 0
 	var outLines []string
@@ -533,8 +537,8 @@ func (e *evidence) write(wall float64) {
 		"violations":  e.Violations,
 	}
 	b, _ := json.MarshalIndent(out, "", " ")
-	os.MkdirAll(filepath.Join(verifDir, "evidence"), 0o755)
-	os.WriteFile(filepath.Join(verifDir, "evidence", e.id+".json"), b, 0o644)
+	os.MkdirAll(filepath.Join(outDir, "evidence"), 0o755)
+	os.WriteFile(filepath.Join(outDir, "evidence", e.id+".json"), b, 0o644)
 }
 
 // ---------------------------------------------------------------- replay
@@ -549,7 +553,7 @@ func cmdReplay(args []string) int {
 		fmt.Fprintln(os.Stderr, err)
 		return 2
 	}
-	workDir := filepath.Join(verifDir, ".work", fmt.Sprintf("replay-%d", os.Getpid()))
+	workDir := filepath.Join(outDir, ".work", fmt.Sprintf("replay-%d", os.Getpid()))
 	os.MkdirAll(workDir, 0o755)
 	defer os.RemoveAll(workDir)
 	ov, err := symgo.BuildOverlay(repoDir, filepath.Join(verifDir, "harness"), allHarnessPkgDirs())
@@ -650,6 +654,23 @@ func cmdHarness(args []string) int {
 	res := ex.Run()
 	fmt.Printf("paths=%d infeasible=%d decisions=%d queries=%d merges=%d steps=%d wall=%.1fs solver=%.1fs sat=%d unsat=%d unknown=%d\n",
 		res.Paths, res.Infeasible, res.Decisions, res.Queries, res.Merges, res.Steps, res.Wall.Seconds(), res.Solver.Time.Seconds(), res.Solver.Sat, res.Solver.Unsat, res.Solver.Unknown)
+	if fs := symgo.ForkSites(); len(fs) > 0 {
+		type kv struct {
+			k string
+			v int
+		}
+		var l []kv
+		for k, v := range fs {
+			l = append(l, kv{k, v})
+		}
+		sort.Slice(l, func(i, j int) bool { return l[i].v > l[j].v })
+		for i, e := range l {
+			if i >= 15 {
+				break
+			}
+			fmt.Printf("fork-site %6d %s\n", e.v, e.k)
+		}
+	}
 	fmt.Println("fallbacks:", res.Fallbacks, "decided:", res.FallbackDecided, "pruned:", res.Pruned, "init steps:", res.InitSteps, "foreign globals:", len(res.ForeignGlobals))
 	if res.Fatal != "" {
 		fmt.Println("FATAL:", res.Fatal)
@@ -670,7 +691,7 @@ func cmdHarness(args []string) int {
 	var nat *symgo.Native
 	var bin string
 	if native {
-		workDir := filepath.Join(verifDir, ".work", fmt.Sprintf("dev-%d", os.Getpid()))
+		workDir := filepath.Join(outDir, ".work", fmt.Sprintf("dev-%d", os.Getpid()))
 		os.MkdirAll(workDir, 0o755)
 		defer os.RemoveAll(workDir)
 		nat = &symgo.Native{Ov: ov, WorkDir: workDir}
